@@ -191,14 +191,7 @@ pub proof fn lemma_acc_log(al: u8)
 impl FSETable {
 //@extract file=ruzstd/src/fse/fse_decoder.rs impl="^impl FSETable" fn=read_probabilities
 //@spec
-        requires source@.len() <= 0x1_0000_0000, max_log <= 30,
-        ensures
-            final(self).max_symbol == old(self).max_symbol, final(self).decode == old(self).decode,
-            r matches Ok(n) ==> n <= source@.len()
-                && ACC_LOG_OFFSET <= final(self).accuracy_log <= max_log
-                && sum_cells(final(self).symbol_probabilities@) == (1u32 << final(self).accuracy_log)
-                && final(self).symbol_probabilities@.len() <= final(self).max_symbol + 1
-                && forall|i: int| 0 <= i < final(self).symbol_probabilities@.len() ==> #[trigger] final(self).symbol_probabilities@[i] >= -1,
+//@include contract_fse_read_probabilities.rs
 //@loop 1
             invariant
                 br.wf(), br.source@ == source@, br.idx >= 4,
